@@ -1,6 +1,7 @@
 package jobs
 
 import (
+	"os"
 	"context"
 	"encoding/json"
 	"errors"
@@ -130,6 +131,9 @@ func c17Run(cfg C17Config) (viol []engine.Violation, outcome string, herr string
 	}
 	fs := &failSink{inner: jb.pipeline.spec().sink, h: h, F: F, Transient: cfg.Transient}
 	if cfg.Reenter > 0 {
+		// a fullsync job that gets no ticket queues a retry after JOB_FULLSYNC_RETRY_INTERVAL of real time: keep it
+		// from ever firing in this worker (it would run against a later configuration's, or a closed, store)
+		_ = os.Setenv("JOB_FULLSYNC_RETRY_INTERVAL", "48h")
 		entered := false
 		fs.onCall = func(call int) error {
 			if call == cfg.Reenter && !entered {
